@@ -45,7 +45,7 @@ AllAxes == {"ne", "te", "td", "e", "n", "t", "eb", "ti", "ni", "z", "b"}
 \* 1. the decision table proper: every flag combination, smooth tables, both species arguments of the same kind
 BaseCases == {c \in [acc : Accessors, species : {"element", "isotope"}, present : BOOLEAN, wl : WlStates,
                      extrap : BOOLEAN, null : BOOLEAN, fallback : BOOLEAN, arg : UNION {ArgClasses(a) : a \in Accessors},
-                     shape : SUBSET {"e", "n", "eb", "ti", "ni", "z", "b"}, drop : {"none"}, species2 : {"same"}, lattice : {"decades"}] :
+                     shape : SUBSET {"e", "n", "eb", "ti", "ni", "z", "b"}, drop : {"none"}, species2 : {"same"}, lattice : {"decades"}, before : {"none"}] :
             /\ c.arg \in ArgClasses(c.acc)
             /\ (~Acc[c.acc].photon => c.wl = "both")                       \* wavelength irrelevant
             /\ c.shape \subseteq SingleAxes(c.acc)                         \* shape = the set of single-point axes of the stored table
@@ -56,19 +56,25 @@ BaseCases == {c \in [acc : Accessors, species : {"element", "isotope"}, present 
 \* 2. drop = x: along axis x the stored table falls by four orders of magnitude after its first node (high, low, low), so that a
 \*    cubic interpolant through it dips below zero between the last two nodes; explored for the plain lookup
 DropCases == {c \in [acc : Accessors, species : {"element"}, present : {TRUE}, wl : {"both"}, extrap : {FALSE}, null : {FALSE},
-                     fallback : {FALSE}, arg : {<<"grid">>, <<"inside">>}, shape : {{}}, drop : AllAxes, species2 : {"same"}, lattice : {"decades"}] :
+                     fallback : {FALSE}, arg : {<<"grid">>, <<"inside">>}, shape : {{}}, drop : AllAxes, species2 : {"same"}, lattice : {"decades"}, before : {"none"}] :
             c.drop \in Rng(Acc[c.acc].axes)}
 \* 3. species2 = "other": accessors taking two species (donor / beam and receiver / target) asked with one element and one
 \*    isotope; isotopes use their element's rates in either position
 Species2Cases == [acc : TwoSpecies, species : {"element", "isotope"}, present : {TRUE}, wl : {"both"}, extrap : BOOLEAN, null : BOOLEAN,
-                  fallback : {FALSE}, arg : {<<"grid">>, <<"inside">>}, shape : {{}}, drop : {"none"}, species2 : {"other"}, lattice : {"decades"}]
+                  fallback : {FALSE}, arg : {<<"grid">>, <<"inside">>}, shape : {{}}, drop : {"none"}, species2 : {"other"}, lattice : {"decades"}, before : {"none"}]
 \* 4. lattice = "physical": the axes of the stored table do not end on powers of ten (first / last nodes such as 1e15 m^-3, 0.2 eV,
 \*    5000 eV, whose logarithms are not exactly representable): the table's own edge nodes are grid points like any other, and
 \*    the range policy starts beyond them
 LatticeCases == {c \in [acc : Accessors, species : {"element"}, present : {TRUE}, wl : {"both"}, extrap : BOOLEAN, null : {FALSE},
                         fallback : {FALSE}, arg : UNION {ArgClasses(a) : a \in Accessors}, shape : {{}}, drop : {"none"},
-                        species2 : {"same"}, lattice : {"physical"}] : c.arg \in ArgClasses(c.acc)}
-Cases == BaseCases \cup DropCases \cup Species2Cases \cup LatticeCases
+                        species2 : {"same"}, lattice : {"physical"}, before : {"none"}] : c.arg \in ArgClasses(c.acc)}
+\* 5. before = "other_kind": the same provider object has already been asked for the same line of the other species kind (the
+\*    isotope before the element, the element before the isotope); what it returned then has no bearing on this request - the
+\*    rates are the element's either way, the wavelength is the requested species' own
+BeforeCases == [acc : Accessors, species : {"element", "isotope"}, present : {TRUE}, wl : {"both", "element_only"}, extrap : {FALSE},
+                null : {FALSE}, fallback : BOOLEAN, arg : {<<"grid">>}, shape : {{}}, drop : {"none"}, species2 : {"same"},
+                lattice : {"decades"}, before : {"other_kind"}]
+Cases == BaseCases \cup DropCases \cup Species2Cases \cup LatticeCases \cup BeforeCases
 
 \* which stored wavelength the photon->power conversion must use: the requested species' own, else (isotope, fallback on) its element's
 WlUsed(c) == IF c.species = "element" THEN (IF c.wl \in {"both", "element_only"} THEN "element" ELSE "missing")
@@ -100,6 +106,7 @@ IsotopeUsesElementRates == (c.present /\ ~Acc[c.acc].photon) => Outcome([c EXCEP
 Species2Irrelevant == (c.present /\ ~Acc[c.acc].photon) => Outcome([c EXCEPT !.species2 = "same"]) = Outcome([c EXCEPT !.species2 = "other"])
 DropIrrelevant == Outcome([c EXCEPT !.drop = "none"]) = Outcome(c)
 LatticeIrrelevant == Outcome([c EXCEPT !.lattice = "decades"]) = Outcome(c)
+BeforeIrrelevant == Outcome([c EXCEPT !.before = "none"]) = Outcome(c)
 ExtrapOnlyOutside == c.arg[1] \in {"grid", "inside", "nonpos"} => Outcome([c EXCEPT !.extrap = TRUE]) = Outcome([c EXCEPT !.extrap = FALSE])
 
 EmitCase == PrintT(ToJson([case |-> c, outcome |-> Outcome(c)]))
